@@ -31,13 +31,13 @@ VARIANT_ROUTES = {
     (SET, "RXM-PMP-V0"): (b"\x02\x72", {0: 0x00}, None),
     (SET, "RXM-PMP-V1"): (b"\x02\x72", {0: 0x01}, None),
     (SET, "RXM-PMREQ-S"): (b"\x02\x41", {}, 8),
-    (SET, "TIM-VCOCAL-V0"): (b"\x0d\x15", {}, 1),
+    (SET, "TIM-VCOCAL-V0"): (b"\x0d\x15", {0: 0x00}, 1),
     (POLL, "CFG-TP5-TPX"): (b"\x06\x31", {}, 1),
 }
 # base entries that are the 'else' branch of a selector need a pin too
 BASE_PINS = {
     (GET, "NAV-RELPOSNED"): {0: 0x01},
-    (SET, "TIM-VCOCAL"): {},
+    (SET, "TIM-VCOCAL"): {0: 0x02},
 }
 # GET RXM-PMP is served from the SET table's variant entries (same dict objects in both tables)
 ALIAS_ROUTES = {
